@@ -1,20 +1,416 @@
 //! Less common mutator operations.
 
+use crate::exec::{do_alloc_simple, slot_of};
+use crate::obj;
+use crate::simrt;
 use crate::spec::*;
+use crate::vm::*;
+use crate::world::{violation, with_world, Ephemeron, RefRec};
+use mmtk::memory_manager as mm;
+use mmtk::scheduler::WorkBucketStage;
+use mmtk::util::verif::rt::site;
+use mmtk::util::Address;
+use std::sync::atomic::{AtomicBool, AtomicU64, Ordering};
 
 type BigLock = mmtk::util::verif::sync::Mutex<()>;
 
+/// Other mutators hold at safepoints while a fork round trip is in progress.
+pub static FORK_HOLD: AtomicBool = AtomicBool::new(false);
+pub static INJECTED_ADDED: AtomicU64 = AtomicU64::new(0);
+pub static INJECTED_RUN: AtomicU64 = AtomicU64::new(0);
+
 #[allow(clippy::too_many_arguments)]
-pub fn copy_region(
-    _mid: usize,
-    _src: RootRef,
-    _sstart: u16,
-    _dst: RootRef,
-    _dstart: u16,
-    _len: u16,
-    _mode: u8,
-    _lock: &BigLock,
-) {
+pub fn copy_region(mid: usize, src: RootRef, sstart: u16, dst: RootRef, dstart: u16, len: u16, mode: u8, lock: &BigLock) {
+    let (locked, solo) = with_world(|w| (w.spec.cfg.write_mode == 1 && w.nmut > 1, w.nmut == 1));
+    if !locked && !solo {
+        // partitioned single-writer fields: a range would cross other writers' fields
+        return;
+    }
+    let _g = if locked { Some(lock.lock().unwrap()) } else { None };
+    let plan = with_world(|w| {
+        let sid = w.root_id(mid, src);
+        let did = w.root_id(mid, dst);
+        if sid == 0 || did == 0 {
+            return None;
+        }
+        let s = w.objs.get(&sid)?;
+        let d = w.objs.get(&did)?;
+        if s.kind != obj::KIND_NORMAL || d.kind != obj::KIND_NORMAL || s.nrefs == 0 || d.nrefs == 0 {
+            return None;
+        }
+        let ss = sstart as usize % s.nrefs;
+        let ds = dstart as usize % d.nrefs;
+        let n = (len as usize).min(s.nrefs - ss).min(d.nrefs - ds);
+        if n == 0 {
+            return None;
+        }
+        Some((sid, did, w.root_raw(mid, src), w.root_raw(mid, dst), ss, ds, n))
+    });
+    let Some((sid, did, sraw, draw, ss, ds, n)) = plan else { return };
+    let m = mutator_ref(mid);
+    let sslice = slot_of(sraw, ss)..slot_of(sraw, ss + n);
+    let dslice = slot_of(draw, ds)..slot_of(draw, ds + n);
+    let satb = with_world(|w| w.plan.barrier_satb);
+    let update_model = |w: &mut crate::world::World| {
+        let vals: Vec<u64> = w.objs[&sid].fields[ss..ss + n].to_vec();
+        let d = w.objs.get_mut(&did).unwrap();
+        let unmoved = matches!(d.sem, SEM_IMMORTAL | SEM_NONMOVING);
+        for (i, v) in vals.iter().enumerate() {
+            d.fields[ds + i] = *v;
+        }
+        if unmoved && vals.iter().any(|v| *v != 0) {
+            w.count("ref_stored_in_immortal_or_nonmoving");
+        }
+        w.count("region_copies");
+    };
+    if satb || mode == 1 {
+        // pre + copy (+ post).  SATB's post barrier is unimplemented in mmtk-core.
+        mm::memory_region_copy_pre(m, sslice.clone(), dslice.clone());
+        with_world(|w| {
+            unsafe {
+                std::ptr::copy::<usize>(sslice.start.to_ptr(), dslice.start.to_mut_ptr(), n);
+            }
+            update_model(w);
+        });
+        if !satb {
+            let m = mutator_ref(mid);
+            mm::memory_region_copy_post(m, sslice, dslice);
+        }
+    } else {
+        with_world(update_model);
+        mm::memory_region_copy(m, sslice, dslice);
+    }
 }
 
-pub fn exec(_mid: usize, _op: &Op, _lock: &BigLock) {}
+fn immix_default_space(w: &crate::world::World) -> bool {
+    matches!(w.plan.name.as_str(), "Immix" | "StickyImmix" | "ConcurrentImmix")
+}
+
+pub fn exec(mid: usize, op: &Op, lock: &BigLock) {
+    match op {
+        Op::Pin { root } | Op::Unpin { root } => {
+            let is_pin = matches!(op, Op::Pin { .. });
+            let t = with_world(|w| {
+                if !immix_default_space(w) {
+                    return None;
+                }
+                let id = w.root_id(mid, *root);
+                if id == 0 {
+                    return None;
+                }
+                let o = w.objs.get_mut(&id)?;
+                if o.sem != SEM_DEFAULT {
+                    return None;
+                }
+                o.pin_ops += 1;
+                Some((id, o.addr))
+            });
+            let Some((id, raw)) = t else { return };
+            let oref = obj::raw_to_ref(raw).unwrap();
+            let r = if is_pin { mm::pin_object(oref) } else { mm::unpin_object(oref) };
+            with_world(|w| {
+                if let Some(o) = w.objs.get_mut(&id) {
+                    if r {
+                        if is_pin {
+                            o.pins_true += 1;
+                        } else {
+                            o.unpins_true += 1;
+                        }
+                    }
+                    let bal = o.pins_true as i64 - o.unpins_true as i64;
+                    // With a single mutator (or the big lock) there is no concurrency: the result
+                    // is fully determined.
+                    if w.nmut == 1 && !(0..=1).contains(&bal) {
+                        violation(
+                            "C18",
+                            "pin-result",
+                            format!("object {}: {} returned {} but pin balance is now {}", id, if is_pin { "pin_object" } else { "unpin_object" }, r, bal),
+                        );
+                    }
+                }
+                w.count(if is_pin { "pin_ops" } else { "unpin_ops" });
+                if r {
+                    w.count(if is_pin { "pin_true" } else { "unpin_true" });
+                }
+            });
+        }
+        Op::AddRef { kind, referent, root } => {
+            let ok = with_world(|w| {
+                !w.spec.cfg.no_reference_types && w.plan.collects && w.root_id(mid, *referent) != 0
+            });
+            if !ok {
+                return;
+            }
+            let k = match kind {
+                1 => obj::KIND_SOFT,
+                2 => obj::KIND_WEAK,
+                _ => obj::KIND_PHANTOM,
+            };
+            // The referent must stay reachable across the allocation (it is in a root).
+            let Some((rid, rraw)) = do_alloc_simple(mid, 48, 2, k) else { return };
+            let (tid, traw) = with_world(|w| (w.root_id(mid, *referent), w.root_raw(mid, *referent)));
+            if tid == 0 {
+                return;
+            }
+            let slot = slot_of(rraw, 0);
+            with_world(|w| {
+                unsafe { slot.store::<usize>(traw) };
+                if let Some(o) = w.objs.get_mut(&rid) {
+                    o.fields[0] = tid;
+                }
+                w.refs.insert(
+                    rid,
+                    RefRec {
+                        kind: k,
+                        referent: tid,
+                        cleared: false,
+                        enqueued: 0,
+                    },
+                );
+                w.set_root(mid, *root, rid, rraw);
+                w.count("refs_added");
+            });
+            let r = obj::raw_to_ref(rraw).unwrap();
+            match k {
+                obj::KIND_SOFT => mm::add_soft_candidate(mmtk(), r),
+                obj::KIND_WEAK => mm::add_weak_candidate(mmtk(), r),
+                _ => mm::add_phantom_candidate(mmtk(), r),
+            }
+        }
+        Op::GetReferent { src, dst } => {
+            let t = with_world(|w| {
+                let id = w.root_id(mid, *src);
+                if id == 0 {
+                    return None;
+                }
+                let o = w.objs.get(&id)?;
+                if o.kind == obj::KIND_NORMAL {
+                    return None;
+                }
+                Some(w.root_raw(mid, *src))
+            });
+            let Some(rraw) = t else { return };
+            let slot = slot_of(rraw, 0);
+            let v = unsafe { slot.load::<usize>() };
+            if v == 0 {
+                with_world(|w| w.set_root(mid, *dst, 0, 0));
+                return;
+            }
+            // weak-load barrier (SATB keeps the referent alive during concurrent marking)
+            let m = mutator_ref(mid);
+            m.barrier.load_weak_reference(obj::raw_to_ref(v).unwrap());
+            with_world(|w| {
+                let v2 = unsafe { slot.load::<usize>() };
+                if v2 == 0 {
+                    w.set_root(mid, *dst, 0, 0);
+                    return;
+                }
+                let h = obj::read_hdr(unsafe { Address::from_usize(v2 - obj::REF_OFFSET) });
+                if !w.objs.contains_key(&h.id) || h.tomb != 0 {
+                    violation(
+                        "C06",
+                        "referent-garbage",
+                        format!("mutator {} loaded referent {:#x} of a live reference object; header {:?} is not a live object", mid, v2, h),
+                    );
+                }
+                w.set_root(mid, *dst, h.id, v2);
+                w.count("referents_loaded");
+            });
+        }
+        Op::AddFinalizer { root } => {
+            let t = with_world(|w| {
+                if w.spec.cfg.no_finalizer || !w.plan.collects {
+                    return None;
+                }
+                let id = w.root_id(mid, *root);
+                if id == 0 {
+                    return None;
+                }
+                *w.fin_registered.entry(id).or_insert(0) += 1;
+                w.count("finalizers_added");
+                Some(w.root_raw(mid, *root))
+            });
+            if let Some(raw) = t {
+                mm::add_finalizer(mmtk(), obj::raw_to_ref(raw).unwrap());
+            }
+        }
+        Op::PopFinalized { dst } => pop_finalized(mid, *dst),
+        Op::AddEphemeron { key, value } => with_world(|w| {
+            if !w.plan.collects {
+                return;
+            }
+            let k = w.root_id(mid, *key);
+            let v = w.root_id(mid, *value);
+            if k == 0 || v == 0 || k == v {
+                return;
+            }
+            if w.ephemerons.iter().any(|e| e.key == k && e.value == v) {
+                return;
+            }
+            let ka = w.root_raw(mid, *key);
+            let va = w.root_raw(mid, *value);
+            w.ephemerons.push(Ephemeron {
+                key: k,
+                value: v,
+                key_addr: ka,
+                value_addr: va,
+                value_traced_in_pause: 0,
+                key_fwd: 0,
+                settled_in_pause: 0,
+            });
+            w.count("ephemerons_added");
+        }),
+        Op::ForkCycle => fork_cycle(mid),
+        Op::InjectPackets { n, fanout } => {
+            for _ in 0..*n {
+                let seq = crate::world::new_injected(0, 0);
+                INJECTED_ADDED.fetch_add(1 + *fanout as u64, Ordering::SeqCst);
+                mm::add_work_packet(
+                    mmtk(),
+                    WorkBucketStage::Unconstrained,
+                    InjectedPacket { seq, fanout: *fanout },
+                );
+            }
+            with_world(|w| w.count_n("packets_injected", *n as u64));
+            // The binding waits for its packets (C14: a parked worker must be woken for them).
+            MUT_PARKED[mid].store(true, Ordering::SeqCst);
+            simrt::block_until("injected packets executed", || {
+                INJECTED_RUN.load(Ordering::SeqCst) >= INJECTED_ADDED.load(Ordering::SeqCst)
+            });
+            simrt::block_until("world resumed", || !STOP_REQUESTED.load(Ordering::SeqCst));
+            MUT_PARKED[mid].store(false, Ordering::SeqCst);
+        }
+        Op::Probe => {
+            with_world(|w| w.probe_requested = true);
+            crate::exec::exec_op(mid, &Op::Gc { force: true, exhaustive: true });
+        }
+        Op::Rebind { flush_first } => {
+            // destroy_mutator flushes by itself; flushing first must be harmless
+            let old = MUTATORS[mid].load(Ordering::SeqCst);
+            let m = unsafe { &mut *old };
+            if *flush_first {
+                mm::flush_mutator(m);
+            }
+            mm::destroy_mutator(m);
+            let fresh = mm::bind_mutator(mmtk(), mutator_tls(mid));
+            MUTATORS[mid].store(Box::into_raw(fresh), Ordering::SeqCst);
+            // the old Mutator box is leaked on purpose (a GC packet may still hold a reference
+            // obtained before the swap; it cannot, because we are not at a safepoint, but leaking
+            // a few hundred bytes is cheaper than being wrong)
+            with_world(|w| w.count("mutator_rebinds"));
+        }
+        _ => {}
+    }
+    let _ = lock;
+    let _ = site::CLASS_BINDING;
+}
+
+fn pop_finalized(mid: usize, dst: Option<RootRef>) {
+    let ok = with_world(|w| !w.spec.cfg.no_finalizer && w.plan.collects);
+    if !ok {
+        return;
+    }
+    let Some(o) = mm::get_finalized_object(mmtk()) else {
+        with_world(|w| w.count("pop_finalized_none"));
+        return;
+    };
+    let raw = o.to_raw_address().as_usize();
+    with_world(|w| {
+        if !crate::oracle::is_mapped(raw) {
+            violation(
+                "C06",
+                "finalized-unmapped",
+                format!("get_finalized_object returned {:#x} which is not mapped", raw),
+            );
+        }
+        let h = obj::read_hdr(unsafe { Address::from_usize(raw - obj::REF_OFFSET) });
+        let id = h.id;
+        let registered = w.fin_registered.get(&id).cloned().unwrap_or(0);
+        if !w.objs.contains_key(&id) || registered == 0 {
+            violation(
+                "C06",
+                "finalized-unexpected",
+                format!("get_finalized_object returned {:#x} (header {:?}) which has no outstanding finalizer registration", raw, h),
+            );
+        }
+        if !w.fin_unreachable_seen.contains(&id) {
+            violation(
+                "C06",
+                "finalized-reachable",
+                format!("get_finalized_object returned object {} which has been strongly reachable at the end of every pause since its registration", id),
+            );
+        }
+        *w.fin_registered.get_mut(&id).unwrap() -= 1;
+        *w.fin_popped.entry(id).or_insert(0) += 1;
+        if w.fin_registered[&id] == 0 {
+            w.fin_unreachable_seen.remove(&id);
+        }
+        // the object and everything it references must be intact
+        let mut wk = crate::oracle::Walker::new("finalized object");
+        wk.from_value(w, raw, id, 0, "C06");
+        for (fid, faddr) in wk.found.iter() {
+            if let Some(so) = w.objs.get_mut(fid) {
+                so.addr = *faddr;
+            }
+        }
+        w.count("finalized_popped");
+        match dst {
+            Some(r) => w.set_root(mid, r, id, raw),
+            None => {}
+        }
+    });
+}
+
+fn fork_cycle(mid: usize) {
+    if mid != 0 {
+        return;
+    }
+    let ok = with_world(|w| w.plan.collects || true);
+    if !ok {
+        return;
+    }
+    // No mutator may allocate between prepare_to_fork and after_fork: hold the others at their
+    // next safepoint, and behave like a thread in native code ourselves (so that a GC that is
+    // already requested can run to completion before the workers stop).
+    FORK_HOLD.store(true, Ordering::SeqCst);
+    MUT_PARKED[mid].store(true, Ordering::SeqCst);
+    simrt::block_until("other mutators held for fork", all_active_parked);
+    let workers = with_world(|w| {
+        w.workers_exited.clear();
+        w.workers_spawned.clear();
+        w.spec.cfg.workers
+    });
+    mmtk().prepare_to_fork();
+    simrt::block_until("all GC workers exited", || WORKERS_ALIVE.load(Ordering::SeqCst) == 0);
+    with_world(|w| {
+        let mut ex = w.workers_exited.clone();
+        ex.sort();
+        let want: Vec<usize> = (0..workers).collect();
+        if ex != want {
+            violation(
+                "C16",
+                "workers-exit-set",
+                format!("after prepare_to_fork the workers that exited are {:?}, expected each of {:?} exactly once", w.workers_exited, want),
+            );
+        }
+        w.fork_epoch += 1;
+        w.count("fork_cycles");
+    });
+    simrt::yield_now(site::mk(site::CLASS_BINDING, 30));
+    mmtk().after_fork(tls_of(TLS_MUTATOR_BASE + mid));
+    with_world(|w| {
+        let mut sp = w.workers_spawned.clone();
+        sp.sort();
+        let want: Vec<usize> = (0..workers).collect();
+        if sp != want {
+            violation(
+                "C16",
+                "workers-respawn-set",
+                format!("after_fork spawned workers {:?}, expected each of {:?} exactly once", w.workers_spawned, want),
+            );
+        }
+    });
+    FORK_HOLD.store(false, Ordering::SeqCst);
+    simrt::block_until("world resumed", || !STOP_REQUESTED.load(Ordering::SeqCst));
+    MUT_PARKED[mid].store(false, Ordering::SeqCst);
+}
